@@ -38,4 +38,26 @@ Proof.
   pose proof (quant_total m M Hm HM v1). pose proof (quant_total m M Hm HM v2).
   apply sorted_table_sound; [exact Hsorted | lia | lia].
 Qed.
+
+(* accuracy for EVERY finite binary32 v in [0,1]: the sample index k = q v is within 1/2 + 2^(E-24) of
+   v*m (half a table step, plus the float32 rounding of v*m + 0.5), and the result is within
+   1/2 + 2^-7 code of mo * OETF(k/m) *)
+Theorem encode_accurate (c : curve) (E : Z) v :
+  AllIdx (enc_ok c m mo) 0 table ->
+  (1 <= E <= 17) /\ (IZR m + /2 <= bpow radix2 E)%R ->
+  is_finite v = true -> (0 <= B2R v <= 1)%R ->
+  exists k, 0 <= k <= m /\ (Rabs (IZR k - B2R v * IZR m) <= /2 + bpow radix2 (E - 24))%R /\
+            (Rabs (IZR (encode v) - IZR mo * oetf c (IZR k / IZR m)) <= tol)%R.
+Proof.
+  intros Hall HE F Hv. exists (q v). pose proof (quant_total m M Hm HM v) as Hr.
+  split; [exact Hr|]. split; [apply (quant_close m M Hm HM E v HE F Hv)|].
+  unfold encode. assert (Hlt : (Z.to_nat (q v) < length table)%nat) by lia.
+  pose proof (nth_error_nth' table 0 Hlt) as Hn. specialize (Hall _ _ Hn).
+  unfold enc_ok in Hall. replace (0 + Z.of_nat (Z.to_nat (q v))) with (q v) in Hall by lia. exact Hall.
+Qed.
 End E.
+
+Lemma HE511 : (1 <= 9 <= 17) /\ (IZR 511 + /2 <= bpow radix2 9)%R.
+Proof. split; [lia|]. simpl. lra. Qed.
+Lemma HE65535 : (1 <= 16 <= 17) /\ (IZR 65535 + /2 <= bpow radix2 16)%R.
+Proof. split; [lia|]. simpl. lra. Qed.
